@@ -190,7 +190,7 @@ def shm_behaviours(ctx, cfg, timeout=1800):
 
 
 SHM_ACTIONS = ["wop", "wl1", "wb1", "ws", "wl2", "wb2", "rop", "l1", "e2", "lk"]
-SHM_GRAPHS = [("MC_AfcShm_g1.cfg", 2000), ("MC_AfcShm_g2.cfg", 1500), ("MC_AfcShm_g3.cfg", 4000)]
+SHM_GRAPHS = [("MC_AfcShm_g1.cfg", 2000), ("MC_AfcShm_g2.cfg", 1500), ("MC_AfcShm_g3.cfg", 5000)]
 
 
 def trace_line_to_run(trace_path, n):
